@@ -168,30 +168,38 @@ func verifLemmaAbsCaptureTimeRoundTrip(a AbsCaptureTimeExtension, b AbsCaptureTi
 
 //@ pure ntpOf(u) = ((u / 1000000000 + 2208988800) % 4294967296) * 4294967296 + ((u % 1000000000) * 4294967296) / 1000000000
 //@ pure nanosOf(n) = (n / 4294967296 - 2208988800) * 1000000000 + ((n % 4294967296) * 1000000000) / 4294967296
+// The same two functions, opaque: callers reason about ntp(u) / nanos(n) as
+// symbols; only the defining functions and the final lemmas reveal them.
+//@ pure opaque ntp(u) = ntpOf(u)
+//@ pure opaque nanos(n) = nanosOf(n)
 
 // 32.32 fixed-point NTP timestamp of an instant at or after the Unix epoch.
 //@ spec toNtpTime
 //@   requires 0 <= unixnano(t)
-//@   ensures def [C18]: int(result0) == ntpOf(unixnano(t))
+//@   reveal ntp(unixnano(t))
+//@   ensures def [C18]: int(result0) == ntp(unixnano(t))
 //@ end
 // Instant of an NTP timestamp at or after the Unix epoch.
 //@ spec toTime
 //@   requires 2208988800 * 4294967296 <= int(t)
-//@   ensures def [C18]: unixnano(result0) == nanosOf(int(t))
+//@   reveal nanos(int(t))
+//@   ensures def [C18]: unixnano(result0) == nanos(int(t))
 //@ end
 
 //@ spec NewAbsCaptureTimeExtension
 //@   requires 0 <= unixnano(captureTime)
-//@   ensures def [C18]: result0 != nil && fresh(result0) && int(result0.Timestamp) == ntpOf(unixnano(captureTime)) && result0.EstimatedCaptureClockOffset == nil
+//@   ensures def [C18]: result0 != nil && fresh(result0) && int(result0.Timestamp) == ntp(unixnano(captureTime)) && result0.EstimatedCaptureClockOffset == nil
 //@ end
 //@ spec (AbsCaptureTimeExtension).CaptureTime
 //@   requires 2208988800 * 4294967296 <= int(t.Timestamp)
-//@   ensures def [C18]: unixnano(result0) == nanosOf(int(t.Timestamp))
+//@   ensures def [C18]: unixnano(result0) == nanos(int(t.Timestamp))
 //@ end
 
 // 1970-01-01 .. end of NTP era 0 (2036-02-07): 0 <= unixnano < (2^32 - 2208988800) * 10^9
 //@ spec verifLemmaCaptureTimeRoundTrip
 //@   requires 0 <= unixnano(t) && unixnano(t) < (4294967296 - 2208988800) * 1000000000
+//@   reveal ntp(unixnano(t))
+//@   reveal nanos(ntp(unixnano(t)))
 //@   ensures within_1ns [C18]: unixnano(t) - 1 <= unixnano(result0) && unixnano(result0) <= unixnano(t)
 //@ end
 func verifLemmaCaptureTimeRoundTrip(t time.Time) time.Time {
@@ -204,7 +212,7 @@ func verifLemmaCaptureTimeRoundTrip(t time.Time) time.Time {
 //@ spec NewAbsCaptureTimeExtensionWithCaptureClockOffset
 //@   requires 0 <= unixnano(captureTime)
 //@   requires -2147483648 * 1000000000 < int(captureClockOffset) && int(captureClockOffset) < 2147483648 * 1000000000
-//@   ensures ts [C18]: result0 != nil && fresh(result0) && int(result0.Timestamp) == ntpOf(unixnano(captureTime))
+//@   ensures ts [C18]: result0 != nil && fresh(result0) && int(result0.Timestamp) == ntp(unixnano(captureTime))
 //@   ensures off [C18]: result0.EstimatedCaptureClockOffset != nil && fresh(result0.EstimatedCaptureClockOffset) && int(*result0.EstimatedCaptureClockOffset) == ite(int(captureClockOffset) >= 0, fixOf(int(captureClockOffset)), 0 - fixOf(0 - int(captureClockOffset)))
 //@ end
 //@ spec (AbsCaptureTimeExtension).EstimatedCaptureClockOffsetDuration
@@ -229,11 +237,23 @@ func verifLemmaClockOffsetRoundTrip(t time.Time, d time.Duration) *time.Duration
 // 1 ns of the NTP conversion, across 64 s wraps.
 //@ spec NewAbsSendTimeExtension
 //@   requires 0 <= unixnano(sendTime)
-//@   ensures def [C18]: result0 != nil && fresh(result0) && int(result0.Timestamp) == ntpOf(unixnano(sendTime)) / 16384
+//@   ensures def [C18]: result0 != nil && fresh(result0) && int(result0.Timestamp) == ntp(unixnano(sendTime)) / 16384
+//@ end
+// Estimate splices the 24-bit field into the receive time's NTP value (bits
+// 14..37) and steps back one 64 s period when that lands after the receive time.
+//@ pure spliced(r, ts) = (r / 274877906944) * 274877906944 + (ts % 16777216) * 16384
+//@ pure estimated(r, ts) = ite(r < spliced(r, ts), spliced(r, ts) - 274877906944, spliced(r, ts))
+//@ spec (*AbsSendTimeExtension).Estimate
+//@   requires 0 <= unixnano(receive)
+//@   requires 2208988800 * 4294967296 <= estimated(ntp(unixnano(receive)), int(t.Timestamp))
+//@   ensures def [C18]: unixnano(result0) == nanos(estimated(ntp(unixnano(receive)), int(t.Timestamp)))
 //@ end
 //@ spec verifLemmaEstimate
 //@   requires 0 <= unixnano(send) && unixnano(send) <= unixnano(receive) && unixnano(receive) < (4294967296 - 2208988800) * 1000000000
 //@   requires unixnano(receive) - unixnano(send) < 64 * 1000000000 - 3815
+//@   reveal ntp(unixnano(send))
+//@   reveal ntp(unixnano(receive))
+//@   reveal nanos(estimated(ntp(unixnano(receive)), ntp(unixnano(send)) / 16384))
 //@   ensures within_resolution [C18]: unixnano(send) - 3816 <= unixnano(result0) && unixnano(result0) <= unixnano(send)
 //@ end
 func verifLemmaEstimate(send, receive time.Time) time.Time {
